@@ -720,27 +720,29 @@ def c_drop_before_rename(cs: Case):
 
 
 def c_annotation_add_base(cs: Case):
-    """annotation-inherited-fields-after-add-base: the type gains (in this step) a base that carries a value of the
-    same INHERITABLE annotation; only `inherited_fields` of the type's own annotation value differs."""
+    """annotation-inherited-fields-after-add-base: only `inherited_fields` of an own AnnotationValue differs; its
+    annotation is INHERITABLE; an ancestor of the subject (type ancestors, or pointer ancestors for a pointer subject)
+    carries a value of the same annotation in the target; and the script ADDs a base to the type that owns the subject
+    (or to one of its ancestors) in this step: re-inheriting marks the own value's `annotation` field as inherited."""
     out = set()
+    ev = script_events(cs)
     for key, f in cs.sdiff.items():
         if not key.startswith('AnnotationValue ') or f != {'inherited_fields'} or key not in cs.ob:
             continue
         av = cs.ob[key]
         U = av.get_subject(cs.b)
         ann = av.get_annotation(cs.b)
-        if U is None or not hasattr(U, 'get_bases') or not ann.get_inheritable(cs.b):
+        if U is None or not hasattr(U, 'get_ancestors') or not ann.get_inheritable(cs.b):
             continue
-        Ua = cs.a.get(U.get_name(cs.b), default=None)
-        if Ua is None:
+        if not any(any(x.get_annotation(cs.b) == ann for x in Q.get_annotations(cs.b).objects(cs.b))
+                   for Q in U.get_ancestors(cs.b).objects(cs.b) if hasattr(Q, 'get_annotations')):
             continue
-        old = {str(x.get_name(cs.a)) for x in Ua.get_bases(cs.a).objects(cs.a)}
-        for P in U.get_bases(cs.b).objects(cs.b):
-            if str(P.get_name(cs.b)) in old:
-                continue
-            for Q in [P, *P.get_ancestors(cs.b).objects(cs.b)]:
-                if any(x.get_annotation(cs.b) == ann for x in Q.get_annotations(cs.b).objects(cs.b)):
-                    out.add(key)
+        T = owner_type(cs.b, U)
+        if T is None or not hasattr(T, 'get_ancestors'):
+            continue
+        chain = {str(T.get_name(cs.b))} | {str(x.get_name(cs.b)) for x in T.get_ancestors(cs.b).objects(cs.b)}
+        if any(e[0] == 'add' and e[1] in chain for e in ev):
+            out.add(key)
     return {'annotation-inherited-fields-after-add-base': out} if out else {}
 
 
